@@ -52,17 +52,35 @@ def isolate_grid_crash(prop, tier, sig):
     if not names:
         return None
 
+    import tempfile
+
     def one(name):
-        q = subprocess.run([exe, prop.lower(), "--tier", tier, "--only", name, "--out", "/dev/null"], env=ENV, stdout=subprocess.PIPE, stderr=subprocess.PIPE, text=True)
-        return name, q.returncode, q.stderr.strip()[-300:]
+        with tempfile.NamedTemporaryFile(suffix=".json", delete=False) as tf:
+            outp = tf.name
+        q = subprocess.run([exe, prop.lower(), "--tier", tier, "--only", name, "--out", outp], env=ENV, stdout=subprocess.PIPE, stderr=subprocess.PIPE, text=True)
+        msg = None
+        if q.returncode == 1:
+            try:
+                vs = json.load(open(outp)).get("violations") or []
+                msg = vs[0]["message"] if vs else None
+            except Exception:
+                msg = None
+        try:
+            os.remove(outp)
+        except OSError:
+            pass
+        return name, q.returncode, q.stderr.strip()[-300:], msg
 
     with ThreadPoolExecutor(max_workers=16) as ex:
         results = list(ex.map(one, names))
-    crashed = [(n, rc, e) for n, rc, e in results if rc < 0]
-    if not crashed:
+    crashed = [(n, rc, e) for n, rc, e, _ in results if rc < 0]
+    # a case run alone may report an ordinary violation where the whole run died later from its consequences
+    plain = [(n, m) for n, rc, _, m in results if rc == 1 and m]
+    if not crashed and not plain:
         return None
-    viol = [{"case": n, "message": f"the process was killed by signal {-rc} while running this case alone (an abort raised by a safety check of the standard library or the allocator, or a wild memory access): {e}"} for n, rc, e in crashed]
-    log(f"[{prop.lower()}] the grid process died by signal {sig}; isolated {len(crashed)} crashing case(s) out of {len(names)}, first: {crashed[0][0]}")
+    viol = [{"case": n, "message": m} for n, m in plain]
+    viol += [{"case": n, "message": f"the process was killed by signal {-rc} while running this case alone (an abort raised by a safety check of the standard library or the allocator, or a wild memory access): {e}"} for n, rc, e in crashed]
+    log(f"[{prop.lower()}] the grid process died by signal {sig}; case-by-case: {len(plain)} case(s) report a violation, {len(crashed)} crash alone, out of {len(names)}; first: {viol[0]['case']}")
     return {"grid": prop.lower(), "evaluations": len(names), "distinct_nontrivial": len(names), "rule": "case-by-case rerun after a crash of the grid process", "samples": names[:3],
             "violations": viol, "violation_count": len(viol), "extra": {"exhaustive": False, "crash_isolated": True}}
 
